@@ -94,6 +94,8 @@ def parse_specs(text, fname='<spec>'):
             cur.index_loops.append((loop, arg))
         elif d == 'values_mut_loop':
             cur.index_loops.append((loop, 'values_mut:' + arg))
+        elif d == 'into_iter_loop':
+            cur.index_loops.append((loop, 'into_iter:' + arg))
         elif d == 'iter':
             cur.iters[loop] = arg
         elif d == 'params':
@@ -412,6 +414,30 @@ def rule_R14_values_mut_loop(text, lp, key, what):
             + text[br_a + 1:close_a] + '} ' + text[close_a:])
 
 
+def rule_R22_into_iter_loop(text, lp, key, what):
+    """for (K, V) in M { BODY }   (M: HashMap, consumed)  ->
+       let KEY_vec = hm_keys_d(&M);
+       for KEY in KEY_vec.iter() { if let Some(V) = M.remove(KEY) { let K = *KEY; BODY } }
+    every key once, in an arbitrary order (hm_keys_d promises nothing about the order)"""
+    toks, s, arrow, where, body = _fn_layout(text)
+    loops = find_loops(text, toks[s[body]].a)
+    if lp < 1 or lp > len(loops):
+        raise LostAnchor('%s: loop %d not found' % (what, lp))
+    kw_a, br_a = loops[lp - 1]
+    header = text[kw_a:br_a]
+    m = re.match(r'^for\s+\(\s*([A-Za-z_][A-Za-z_0-9]*)\s*,\s*([A-Za-z_][A-Za-z_0-9]*)\s*\)\s+in\s+([A-Za-z_][A-Za-z_0-9]*)\s*$', header, re.S)
+    if not m:
+        raise LostAnchor('%s: loop %d is not `for (k, v) in m`: %r' % (what, lp, header))
+    kvar, vvar, expr = m.group(1), m.group(2), m.group(3)
+    ltoks = rsx.tokenize(text)
+    bi = next(i for i, t in enumerate(ltoks) if t.a == br_a)
+    ce = rsx.match_close(ltoks, bi)
+    close_a = ltoks[ce].a
+    return (text[:kw_a] + 'let %s_vec = hm_keys_d(&%s);\n    for %s in %s_vec.iter() ' % (key, expr, key, key)
+            + '{ if let Some(%s) = %s.remove(%s) { let %s = *%s;' % (vvar, expr, key, kvar, key)
+            + text[br_a + 1:close_a] + '} ' + text[close_a:])
+
+
 def rule_R13_index_loop(text, lp, idx, what):
     """for PAT in EXPR.iter_mut() { BODY }  ->
        let mut IDX: usize = 0; while IDX < EXPR.len() { let PAT = &mut EXPR[IDX]; BODY; IDX += 1; }"""
@@ -493,6 +519,9 @@ def inject(text, fs, oblig_lines=None, what=''):
         if idx.startswith('values_mut:'):
             text = rule_R14_values_mut_loop(text, lp, idx.split(':', 1)[1], fs.path)
             rewrites.append(('R14', 'loop %d: for V in M.values_mut() -> let ks = hm_keys(&M); for k in ks.iter() { if let Some(V) = hm_get_mut(&mut M, k) {..} }' % lp))
+        elif idx.startswith('into_iter:'):
+            text = rule_R22_into_iter_loop(text, lp, idx.split(':', 1)[1], fs.path)
+            rewrites.append(('R22', 'loop %d: for (K, V) in M (HashMap consumed) -> let ks = hm_keys_d(&M); for k in ks.iter() { if let Some(V) = M.remove(k) { let K = *k; .. } }' % lp))
         else:
             text = rule_R13_index_loop(text, lp, idx, fs.path)
             rewrites.append(('R13', 'loop %d: for .. in X.iter_mut() -> index loop over X' % lp))
